@@ -535,6 +535,10 @@ def make_case(spec):
     m = spec["m"]
     Xq = numpy.vstack([X[rs.randint(0, n, size=(m + 1) // 2)],
                        rs.randint(-10, 11, size=(m // 2, d)) / 4.0])[:m] if m > 1 else X[:1].copy()
+    if spec.get("big_int"):
+        # integer-valued features of large magnitude (identifiers, timestamps): exact in float64, not in float32
+        X = numpy.round(X * 4.0) + float(spec["big_int"])
+        Xq = numpy.round(Xq * 4.0) + float(spec["big_int"])
     return X, y, sw, Xq
 
 
@@ -790,7 +794,19 @@ def _row_path(root, x, marked):
 
 
 def check_spec(spec):
-    """Fit the real estimator for `spec` and evaluate the statement; returns [(key, what, observed, required)]."""
+    """Fit the real estimator for `spec` and evaluate the statement; returns [(key, what, observed, required)].
+    With features of magnitude 2e7 the rounding of a linear score (batch product vs single-row product) is ~1e-8, so
+    the float tolerance - also the one of the tie detector - is 1e-6 for those specs."""
+    global TOL
+    old = TOL
+    TOL = 1e-6 if spec.get("big_int") else old
+    try:
+        return _check_spec(spec)
+    finally:
+        TOL = old
+
+
+def _check_spec(spec):
     import warnings
     import numpy
     warnings.filterwarnings("ignore")
@@ -879,9 +895,11 @@ def _check_queries(spec, model, nodes, nn, Xq, y):
     import numpy
     bad = []
     leaves = [int(v) for v in model.get_leaves_index()]
-    P = model.predict_proba(Xq)
-    D = numpy.asarray(model.decision_path(Xq).todense())
-    pred = model.predict(Xq)
+    # integer-valued rows are also given as an int64 array: the same numbers, so the same routes
+    Xcall = Xq.astype(numpy.int64) if spec.get("big_int") else Xq
+    P = model.predict_proba(Xcall)
+    D = numpy.asarray(model.decision_path(Xcall).todense())
+    pred = model.predict(Xcall)
     m = Xq.shape[0]
     if P.shape != (m, 2) or D.shape != (m, nn):
         bad.append(("DTLR.predict_proba:shape", "output shapes", [list(P.shape), list(D.shape)], [[m, 2], [m, nn]]))
@@ -973,6 +991,8 @@ def search(ctx, hints):
             sp["used_before"] = True
         if t % 5 == 4:
             sp["params_changed_after_fit"] = True
+        if t % 6 == 1 and sp["data"] != "ties":
+            sp["big_int"] = 20000000
         if t % 4 == 1:
             sp["via_set_params"] = True
             if t % 8 == 1:
